@@ -2,6 +2,10 @@
    C13a  structural facts of the table construction (core Lean only)
    C13b  the monomial sphere integrals behind the tables: closed form 4π(2i−1)!!(2j−1)!!(2k−1)!!/(2(i+j+k)+1)!! of the
          recursion `Pijk` runs over any field of characteristic 0, its permutation symmetry (sorting the exponents is
-         harmless), `sort3` sorts and permutes for all naturals, and exactly which entries `makeW` writes (Mathlib) -/
+         harmless), `sort3` sorts and permutes for all naturals, and exactly which entries `makeW` writes (Mathlib)
+   C13c  the closed form IS the surface integral over the unit sphere of ℝ³ (Mathlib measure theory: polar decomposition of the
+         Gaussian-weighted monomial): ∫_{S²} x^{2i}y^{2j}z^{2k} dσ = 4π(2i−1)!!(2j−1)!!(2k−1)!!/(2(i+j+k)+1)!!, odd exponents give 0,
+         total mass 4π; hence the model's `Pijk` equals the sphere integral -/
 import Ecpint.Props.C13a
 import Ecpint.Props.C13b
+import Ecpint.Props.C13c
